@@ -12,7 +12,8 @@ from . import c05
 SOLVER = "tdgl.solver.solver"
 RUNNER = "tdgl.solver.runner"
 TECH = ("who-may-read audit of the recording options over the whole library, write-effect audit of the observers "
-        "(save path, probe readout), key agreement between the fresh/seed initial-state tables and update()'s signature; "
+        "(save path, probe readout), agreement between what Runner(...) receives in 32 followed scenarios (fresh/seed x dynamic drives "
+        "x probes x screening) and update()'s signature; "
         "inherits the label/content typestate of C05")
 
 RECORDING = {"save_every", "output_file", "progress_interval", "monitor", "monitor_update_interval", "pause_on_interrupt"}
